@@ -255,7 +255,12 @@ def stage(ctx, thorough, seed):
     jobs = []
     tid = 0
     reps = 3 if thorough else 1
-    for key in sorted(progs):
+    keys = sorted(progs)
+    if not thorough:
+        # quick tier: every one-operation program, and a seed-dependent third of the two-operation programs
+        keys = [k_ for i_, k_ in enumerate(keys) if len(progs[k_][1]) <= 2 or (i_ + seed) % 3 == 0]
+    ctx.notes["library_programs_explored_by_TLC"] = len(progs)
+    for key in keys:
         d0, prog = progs[key]
         for rep in range(reps):
             jobs.append((tid, d0, prog, seed * 7919 + tid))
@@ -271,7 +276,7 @@ def stage(ctx, thorough, seed):
     for tid_, clause in bad:
         e = byid[tid_]
         ctx.fail("program:" + e["op"], clause, "operation-sequence", {"event": e})
-    ctx.notes["library_programs"] = len(progs)
+    ctx.notes["library_programs"] = len(keys)
     ctx.notes["library_program_events"] = len(events)
     ctx.notes["library_events_on_recorded_finding_classes_not_judged"] = skipped
     for e in events:
